@@ -2,11 +2,12 @@
 SPECIFICATION Spec
 CONSTANTS Names <- NamesSmall
           Types <- TypesAll
-          Bodies = {"x", ""}
+          Bodies = {"x"}
           Modes <- ModesTwo
           Mtimes <- MtimesTwo
           MaxNodes = 2
           MaxDepth = 2
+          MinNodes = 1
           Devs = {"Dev_C39_MtimeEpoch"}
 INVARIANTS RoundTrip
 CHECK_DEADLOCK FALSE
